@@ -251,6 +251,10 @@ class NumberedObjectCollection(ABC):
             raise TypeError(f"object being appended must be of type: {self._obj_class}")
         if not isinstance(step, int):
             raise TypeError("The step number must be an int")
+        if any(obj is member for member in self._objects):
+            raise NumberConflictError(
+                f"{obj} is already in {type(self)} and cannot be appended again."
+            )
         number = obj.number
         if self._problem:
             obj.link_to_problem(self._problem)
